@@ -224,7 +224,7 @@ fn run_transition(sc: &Scenario, path: &str, h: &[u32], a: Option<usize>, base: 
 }
 
 fn is_noncommitting(a: &Action) -> bool {
-    matches!(a, Action::Tx { commit: false, .. } | Action::RoTx { .. } | Action::RoCommit | Action::TxFail { .. })
+    matches!(a, Action::Tx { commit: false, .. } | Action::RoTx { .. } | Action::RoCommit) || matches!(a, Action::TxFail { call, .. } if *call < 1000)
 }
 
 
@@ -298,13 +298,18 @@ pub fn worker(idx: usize) {
                 // C06 bisimulation: the dropped work must not influence any follow-up
                 if let Some(ai) = a {
                     let act = sc.alphabet.get(ai);
-                    if is_noncommitting(&act) && !sc.bisim_followups.is_empty() && res.digest.is_some() {
+                    if is_noncommitting(&act) && !sc.bisim_followups.is_empty() && res.digest.is_some() && std::env::var("VCHECK_NO_BISIM").is_err() {
                         for f in &sc.bisim_followups {
                             // lifetimes: the scenario list and base images live as long as the worker
                             let sc_s: &'static Scenario = unsafe { &*(sc as *const Scenario) };
                             let base_s: Option<&'static BaseImage> = base.map(|b| unsafe { &*(b as *const BaseImage) });
+                            let t0 = std::time::Instant::now();
                             let (d1, pos) = run_followup(sc_s, &path, &h, Some(ai), f, base_s, None);
+                            let t1 = t0.elapsed();
                             let (d2, _) = run_followup(sc_s, &path, &h, None, f, base_s, Some(pos));
+                            if std::env::var("VCHECK_TIMING").is_ok() {
+                                eprintln!("bisim a={} d1 {:?} d2 {:?}", ai, t1, t0.elapsed() - t1);
+                            }
                             if d1 != d2 {
                                 res.violations.push(Violation::new("abandoned_tx_influences_followup", format!("after the abandoned action, follow-up {} leads to a different file/bookkeeping state than without it", f.to_json())));
                                 break;
